@@ -17,6 +17,8 @@ import ZygoVerif.Generated.ReadPrint
 import ZygoVerif.Generated.LexTables
 import ZygoVerif.Proofs.ReadPrintMain
 import ZygoVerif.Proofs.LiteralValue
+import ZygoVerif.Proofs.LiteralNotations
+import ZygoVerif.Proofs.LiteralSpec
 namespace ZygoVerif.Props.C12
 open ZygoVerif ZygoVerif.Lexer ZygoVerif.Parser ZygoVerif.PrintData ZygoVerif.EvalData
 open ZygoVerif.Spec.DataValue ZygoVerif.ReadPrint
@@ -164,19 +166,180 @@ def sameNumber : Sexp → Sexp → Prop
   | .float a _, .float b _ => a = b ∨ (isNaNBits a = true ∧ isNaNBits b = true)
   | _, _ => False
 
-/-- **Full statement** (NOT proved; compared on every generated and every enumerated spelling by
-the `rt` channel: impl vs `Spec.require`, and `Spec.mathValue`/`nearestF64` vs math/big): a
-spelling in a notation the property lists is read as exactly its mathematical value (or refused
-when that value does not fit the type); any other spelling is either not read as a number or
-read as exactly its value. (`-.5` was a recorded finding until repo fix C12-05:
-`neg_fraction_begins`, `neg_fraction_fixed`, `neg_fraction_counterexample`.) -/
-def LiteralValue : Prop :=
-  ∀ s : List Char, match require s with
+/-- what the specification demands of the reader for ONE spelling `s`: a spelling in a notation the
+property lists is read as exactly its mathematical value (or refused when that value does not fit the
+type); any other spelling is either not read as a number or read as exactly its value. -/
+def LiteralValueAt (s : List Char) : Prop :=
+  match require s with
     | .must (some v) => ∃ x, readLiteral s = some x ∧ sameNumber x v
     | .must none => readLiteral s = none
     | .may (some v) => readLiteral s = none ∨ ∃ x, readLiteral s = some x ∧ sameNumber x v
     | .may none => readLiteral s = none
     | .notNumber => readLiteral s = none
+
+/-- a spelling is one word: no white space in it (`Spec.mathValue` judges the spelling as a whole, the
+reader skips blanks around a literal) -/
+def oneWord (s : List Char) : Bool := s.all (fun c => !(c == ' ' || c == '\t' || c == '\n' || c == '\r'))
+
+/-- **Full statement** (NOT proved in full — see `literal_value_partial` for the proved notations; the
+rest is compared on every generated and every enumerated spelling by the `rt` channel: impl vs
+`Spec.require`, and `Spec.mathValue`/`nearestF64` vs math/big): every spelling is read as the
+specification demands. (`-.5` was a recorded finding until repo fix C12-05: `neg_fraction_begins`,
+`neg_fraction_fixed`, `neg_fraction_counterexample`.) -/
+def LiteralValue : Prop := ∀ s : List Char, oneWord s = true → LiteralValueAt s
+
+/-- why the full statement speaks of one-word spellings only: `1 ` (with a blank) is not a numeral to
+`Spec.mathValue`, and the reader — rightly — reads the number 1 -/
+theorem literal_value_blank_counterexample : ¬ ∀ s : List Char, LiteralValueAt s := by
+  intro h
+  have h1 : readLiteral "1 ".toList = none := h "1 ".toList
+  have h2 : (readLiteral "1 ".toList).isSome = true := by decide +kernel
+  rw [h1] at h2
+  cases h2
+
+/-! ### the integer notations, proved for every spelling -/
+
+theorem readLiteral_int (s : List Char) (v : Int) (h : readAll s = some [.int v]) : readLiteral s = some (.int v) := by
+  simp [readLiteral, h]
+
+theorem readLiteral_uint (s : List Char) (n : Nat) (h : readAll s = some [.uint n]) : readLiteral s = some (.uint n) := by
+  simp [readLiteral, h]
+
+theorem readLiteral_none (s : List Char) (h : readAll s = none) : readLiteral s = none := by
+  simp [readLiteral, h]
+
+/-- from the reader's answer to the specification's demand, for an integer verdict (`must` and `may`) -/
+theorem at_of_int (s : List Char) (v : Int) (sup : Bool) (h : mathValue s = some (.int v, sup))
+    (hr : readAll s = if -(2 : Int) ^ 63 ≤ v ∧ v < 2 ^ 63 then some [.int v] else none) : LiteralValueAt s := by
+  unfold LiteralValueAt require
+  rw [h]
+  by_cases hv : -(2 : Int) ^ 63 ≤ v ∧ v < 2 ^ 63
+  · rw [if_pos hv] at hr
+    have hx := readLiteral_int s v hr
+    cases sup
+    · simp only [denote, hv, and_self, ↓reduceIte]
+      exact Or.inr ⟨_, hx, rfl⟩
+    · simp only [denote, hv, and_self, ↓reduceIte]
+      exact ⟨_, hx, rfl⟩
+  · rw [if_neg hv] at hr
+    have hx := readLiteral_none s hr
+    cases sup <;> simp only [denote, hv, ↓reduceIte] <;> exact hx
+
+theorem intAnswer_eq (n : Nat) :
+    Literal.intAnswer n = if -(2 : Int) ^ 63 ≤ (n : Int) ∧ (n : Int) < 2 ^ 63 then some [.int (n : Int)] else none := by
+  unfold Literal.intAnswer
+  have : (-(2 : Int) ^ 63 ≤ (n : Int) ∧ (n : Int) < 2 ^ 63) ↔ n < 2 ^ 63 := by omega
+  by_cases hn : n < 2 ^ 63
+  · rw [if_pos hn, if_pos (this.mpr hn)]
+  · rw [if_neg hn, if_neg (fun h => hn (this.mp h))]
+
+theorem negAnswer_eq (n : Nat) :
+    Literal.negAnswer n = if -(2 : Int) ^ 63 ≤ -(n : Int) ∧ -(n : Int) < 2 ^ 63 then some [.int (-(n : Int))] else none := by
+  unfold Literal.negAnswer
+  have : (-(2 : Int) ^ 63 ≤ -(n : Int) ∧ -(n : Int) < 2 ^ 63) ↔ n ≤ 2 ^ 63 := by omega
+  by_cases hn : n ≤ 2 ^ 63
+  · rw [if_pos hn, if_pos (this.mpr hn)]
+  · rw [if_neg hn, if_neg (fun h => hn (this.mp h))]
+
+/-- **`literal_value_int`** — EVERY spelling to which the specification gives an integer verdict and that
+does not begin with `+` — i.e. every hex `0x…`, octal `0o…`, binary `0b…` literal, every decimal literal
+`D[D_]*` with or without a minus sign (underscores well placed: a `must`; misplaced as in `1__0`, `1_`: a
+`may`, and the reader reads the value all the same) — is read by the reader model (lexer from a fresh state,
+`DecodeAtom` cascade, `ParseInt` with its base, top-level loop, end of input) as EXACTLY the positional value
+Σ dᵢ·bⁿ⁻¹⁻ⁱ of its digits with its sign, and is refused (a parse error) exactly when that value is outside
+[−2⁶³, 2⁶³). No bound on the length. Not covered: a leading `+` (`+5`: the specification says "may", the
+reader reads the symbol `+` and the number) and a minus sign on a based literal (`-0x10`: "may", read as a
+symbol). -/
+theorem literal_value_int (s : List Char) (v : Int) (sup : Bool) (h : mathValue s = some (.int v, sup))
+    (hcov : sup = true ∨ (∃ body, (s = body ∨ s = '-' :: body) ∧ digitsUnderscores body = true)) :
+    LiteralValueAt s := by
+  have h0 := h
+  rw [Literal.mathValue_eq] at h
+  rcases Literal.signOf_cases s with ⟨r, rfl, hs⟩ | ⟨r, rfl, hs⟩ | ⟨hs, hm, hp⟩
+  · -- a minus sign
+    rw [hs] at h
+    rcases Literal.mathBody_int _ _ _ _ h with ⟨base, ds, l, hb, hd, hv, hsup⟩ | ⟨hdu, l, hd, hv, hsup⟩
+    · -- `-0x…`: not a listed notation
+      exfalso
+      rcases hcov with rfl | ⟨body, hb2, hdu⟩
+      · simp at hsup
+      · rcases hb2 with hb2 | hb2
+        · rw [← hb2] at hdu; simp [digitsUnderscores, isDigit] at hdu
+        · simp only [List.cons.injEq, true_and] at hb2
+          subst hb2
+          rcases Literal.basedOf_some _ _ _ hb with ⟨rfl, _⟩ | ⟨rfl, _⟩ | ⟨rfl, _⟩ <;>
+            simp [digitsUnderscores, isDigit] at hdu
+    · have hv' : v = -(posValue 10 l : Int) := by simpa using hv
+      subst hv'
+      exact at_of_int _ _ sup h0 (by rw [Literal.read_neg_decimal r l hdu hd, negAnswer_eq])
+  · -- a plus sign: never `must`, and excluded from the loose part
+    exfalso
+    rw [hs] at h
+    rcases hcov with rfl | ⟨body, hb2, hdu⟩
+    · rcases Literal.mathBody_int _ _ _ _ h with ⟨base, ds, l, hb, hd, hv, hsup⟩ | ⟨hdu, l, hd, hv, hsup⟩
+      · simp at hsup
+      · simp at hsup
+    · rcases hb2 with hb2 | hb2
+      · rw [← hb2] at hdu; simp [digitsUnderscores, isDigit] at hdu
+      · simp at hb2
+  · -- no sign
+    rw [hs] at h
+    rcases Literal.mathBody_int _ _ _ _ h with ⟨base, ds, l, hb, hd, hv, hsup⟩ | ⟨hdu, l, hd, hv, hsup⟩
+    · have hv' : v = (posValue base l : Int) := by simpa using hv
+      subst hv'
+      rcases Literal.basedOf_some _ _ _ hb with ⟨rfl, rfl⟩ | ⟨rfl, rfl⟩ | ⟨rfl, rfl⟩
+      · exact at_of_int _ _ sup h0 (by rw [Literal.read_hex ds l hd, intAnswer_eq])
+      · exact at_of_int _ _ sup h0 (by rw [Literal.read_oct ds l hd, intAnswer_eq])
+      · exact at_of_int _ _ sup h0 (by rw [Literal.read_binary ds l hd, intAnswer_eq])
+    · have hv' : v = (posValue 10 l : Int) := by simpa using hv
+      subst hv'
+      exact at_of_int _ _ sup h0 (by rw [Literal.read_decimal s l hdu hd, intAnswer_eq])
+
+/-- non-vacuity: spellings with an integer `must` verdict in each notation (underscores, sign, the
+smallest int64, a value beyond int64 which must be refused) -/
+example : mathValue "0xfF".toList = some (.int 255, true) ∧ mathValue "0o17".toList = some (.int 15, true) ∧
+    mathValue "0b101".toList = some (.int 5, true) ∧ mathValue "1_000".toList = some (.int 1000, true) ∧
+    mathValue "-9223372036854775808".toList = some (.int (-9223372036854775808), true) ∧
+    mathValue "9223372036854775808".toList = some (.int 9223372036854775808, true) ∧
+    mathValue "1__0".toList = some (.int 10, false) := by decide +kernel
+
+example : LiteralValueAt "-9223372036854775808".toList :=
+  literal_value_int _ _ _ (by decide +kernel : mathValue "-9223372036854775808".toList = some (.int (-9223372036854775808), true)) (Or.inl rfl)
+
+/-- **`literal_value_uint`** — EVERY spelling to which the specification gives a uint64 verdict
+(`<decimal digits>ULL`, `0x<hex digits>ULL`, `0o<octal digits>ULL`) is read as exactly the positional value
+of its digits, as a uint64, and refused exactly when the value is ≥ 2⁶⁴. -/
+theorem literal_value_uint (s : List Char) (n : Nat) (sup : Bool) (h : mathValue s = some (.uint n, sup)) :
+    LiteralValueAt s := by
+  have h0 := h
+  rw [Literal.mathValue_eq] at h
+  obtain ⟨hsn, rfl, d, hd, hcases⟩ := Literal.mathBody_uint _ _ _ _ h
+  have hbody : (Literal.signOf s).2 = s := by
+    rcases Literal.signOf_cases s with ⟨r, rfl, hs⟩ | ⟨r, rfl, hs⟩ | ⟨hs, _, _⟩
+    · rw [hs] at hsn; cases hsn
+    · rw [hs] at hsn; cases hsn
+    · rw [hs]
+  rw [hbody] at hd
+  have hsd := Literal.stripSuffix?_some _ _ _ hd
+  have hr : readAll s = Literal.uintAnswer n := by
+    rcases hcases with ⟨ds, l, rfl, hl, rfl⟩ | ⟨ds, l, rfl, hl, rfl⟩ | ⟨l, hl, rfl⟩
+    · rw [hsd]; exact Literal.read_uint_hex ds l hl
+    · rw [hsd]; exact Literal.read_uint_oct ds l hl
+    · rw [hsd]; exact Literal.read_uint_dec d l hl
+  unfold LiteralValueAt require
+  rw [h0]
+  unfold Literal.uintAnswer at hr
+  by_cases hn : n < 2 ^ 64
+  · rw [if_pos hn] at hr
+    simp only [denote, hn, ↓reduceIte]
+    exact ⟨_, readLiteral_uint s n hr, rfl⟩
+  · rw [if_neg hn] at hr
+    simp only [denote, hn, ↓reduceIte]
+    exact readLiteral_none s hr
+
+example : mathValue "255ULL".toList = some (.uint 255, true) ∧ mathValue "0xffULL".toList = some (.uint 255, true) ∧
+    mathValue "0o17ULL".toList = some (.uint 15, true) ∧
+    mathValue "18446744073709551616ULL".toList = some (.uint 18446744073709551616, true) := by decide +kernel
 
 /-- **`literal_value_partial`** (1): `strconv.ParseInt/ParseUint` as the parser uses them
 (Horner evaluation) compute the POSITIONAL value Σ dᵢ·baseⁿ⁻¹⁻ⁱ of the specification, for every
